@@ -10,8 +10,8 @@ S2C: every enumerated integer through the real Locale.friendly_number (English a
 C2S: seeded random integers (to +-(10^9-1)) and offsets (sub-minute to two years, past and
      future) recorded from the real methods and validated by TLC.
 
-Binding demonstrated during development (scratch worktree, notes/text.md): grouping by 2,
-`minutes = seconds // 60`, dropping the `date > now` branch - each reported as VIOLATION.
+Binding demonstrated during development (scratch worktree, notes/text.md): `minutes = seconds //
+60` (floor instead of nearest), sign test `value <= 0` - each reported as VIOLATION.
 """
 import random
 
